@@ -749,7 +749,8 @@ class Fxp():
             vdtype = val.dtype
         
         # scaling conversion
-        self.scaled = False
+        # (a raw value is not transformed, but the object is still a scaled one)
+        self.scaled = self.scale is not None and self.bias is not None and (self.bias != 0 or self.scale != 1)
         if self.scale is not None and self.bias is not None and not raw:
             if self.bias != 0:
                 val = val - self.bias
